@@ -4,6 +4,7 @@
 //! writes an ndjson trace that a `*_Trace.tla` module validates; no
 //! interpretation of observed state happens here.
 mod session;
+mod table;
 mod uf;
 mod util;
 
@@ -17,6 +18,7 @@ fn main() {
     let r = match args[1].as_str() {
         "uf" => uf::main(rest),
         "session" => session::main(rest),
+        "table" => table::main(rest),
         other => Err(format!("unknown driver {other}")),
     };
     if let Err(e) = r {
